@@ -4,7 +4,8 @@
 import json, os, re, subprocess, sys
 pid = sys.argv[1]
 tier = sys.argv[2] if len(sys.argv) > 2 else "quick"
-wt = "/tmp/mut/" + pid
+wt = os.environ.get("MUT_WT", "/tmp/mut/" + pid)
+offset = int(os.environ.get("MUT_OFFSET", "0"))
 ROOT = "/verif"
 def sh(cmd, **kw):
     p = subprocess.run(cmd, stdout=subprocess.PIPE, stderr=subprocess.STDOUT, text=True, **kw)
@@ -43,7 +44,7 @@ for i in sorted(os.listdir(wt + "/out")):
         ("VIOLATION%s — %s" % (" (no-failing-input-found)" if nofail else "", ops)) if caught else "MISSED (exit 0)")
     if not conf.get("confirmed"):
         result = "NOT CONFIRMED by the lead (%s); " % json.dumps({k: v for k, v in conf.items() if "tail" not in k}) + result
-    sh(["python3", ROOT + "/lib/store_seeded.py", pid, i[1:], result])
+    sh(["python3", ROOT + "/lib/store_seeded.py", pid, i[1:], result], env=dict(os.environ, MUT_WT=wt, MUT_OFFSET=str(offset)))
     summary.append((i, conf.get("confirmed"), "CAUGHT" + ("(no-input)" if nofail else "") if caught else "MISSED", ops[:120], (m.get("summary") or "")[:110]))
 for s in summary:
     print(pid, *s, sep=" | ")
